@@ -113,6 +113,7 @@ func c10Nested2(set, innerSet string, inner []string, step int) []string {
 
 // left-hand sides over schema Q (bolt path)
 var c10BoltLhs = []string{"s", "ism", "ibig", "flt", "b", "t", "grp", "tags", "nums", "friends", "owner", "id", "meta.k", "meta.a.b", "meta", "owner.name", "owner.tags", "friends.name", "friends.tags", "friends.rank", "zz", "owner.zz",
+	"count(friends.tags)", "count(owner.tags)", "count(friends.things.ibig)", "count(owner.things)", "anyOf(friends.things.owner.name)",
 	"s.len", "tags.x", "nums.value", "ism.x", "b.c", "t.year", "grp.x", "id.x", "anyOf(tags.x)", "anyOf(nums.value)", "count(s.len)",
 	"anyOf(tags)", "allOf(tags)", "anyOf(friends.name)", "allOf(friends.rank)", "anyOf(owner.tags)", "count(tags)", "count(friends)", "anyOf(s)", "count(ism)", "anyOf(meta.k)", "anyOf(zz)",
 	"count(from friends where rank > 1)", "count(from friends where name = \"a\" skip 1 limit 1)", "count(from tags where true)", "count(from owner where true)", "count(from friends where zz = 1)"}
